@@ -297,7 +297,49 @@ def explore(ctx, factor, bs):
     ctx.notes["fragment_share"] = round(1 - unsup / total, 4) if total else None
 
 
-MATCHERS = {}
+def _requires_itext(form, ln):
+    """The harness's own reading of Itemset.requires_itext for list `ln`."""
+    import re
+
+    for r in form.get("choices", []):
+        if r.get("list_name", r.get("list name")) != ln:
+            continue
+        for k, v in r.items():
+            if v in (None, ""):
+                continue
+            ck = CHOICE_CANON.get(k, k)
+            if ck.startswith("label::") or ck.startswith("media::"):
+                return True
+            if ck == "label" and re.search(r"\$\{[^}\s]+\}", v):
+                return True
+    return False
+
+
+def match_f39(f: Failure) -> bool:
+    """label-ref failure of build_xml on exactly this shape: a select row with randomize=true, no
+    choice_filter, a static list whose labels are in itext; observed `label`, expected the itext ref."""
+    if f.kind != "label-ref" or "build_xml" not in f.extra.get("site", ""):
+        return False
+    if "is 'label' expected 'jr:itext(itextId)'" not in f.detail:
+        return False
+    form = f.case.get("form") or {}
+    ref = f.detail.split(" of ", 1)[1].split(" is ", 1)[0]
+    name = ref.rsplit("/", 1)[-1]
+    for row in form.get("survey", []):
+        if row.get("name") != name:
+            continue
+        t = row.get("type", "").split()
+        if row.get("choice_filter") or not row.get("parameters"):
+            return False
+        if parse_params(row["parameters"]).get("randomize") != "true":
+            return False
+        for ln in t[1:]:
+            if _requires_itext(form, ln):
+                return True
+    return False
+
+
+MATCHERS = {"F39-randomize-itext-label": match_f39}
 
 
 def replay(ctx, payload, bs):
